@@ -137,8 +137,8 @@ func (fs *FS) fault(kind, path string, data []byte) *Fault {
 	return fs.Hook(len(fs.Log), kind, path, data)
 }
 
-// ReadFile implements fileIO. It returns a fresh copy, like
-// ioutil.ReadFile.
+// ReadFile implements fileIO. It returns a fresh copy (see the note on
+// placement at the end).
 func (fs *FS) ReadFile(path string) ([]byte, error) {
 	op := Op{Index: len(fs.Log), Kind: "read", Path: path}
 	if f := fs.fault("read", path, nil); f != nil && f.Err != nil {
@@ -161,10 +161,19 @@ func (fs *FS) ReadFile(path string) ([]byte, error) {
 		return nil, err
 	}
 	fs.Log = append(fs.Log, op)
-	out := make([]byte, len(b))
-	copy(out, b)
-	return out, nil
+	// The result is a fresh copy, placed like a window into a larger buffer: capacity beyond the length, and the
+	// spare capacity holds non-zero bytes. A caller may append into it, but whatever it computes may only depend
+	// on out[:len]: code that reslices past len (or assumes the spare room is zero) sees poison here.
+	buf := make([]byte, len(b)+spareCap)
+	copy(buf, b)
+	for i := len(b); i < len(buf); i++ {
+		buf[i] = 0xA5 ^ byte(i*7)
+	}
+	return buf[:len(b)], nil
 }
+
+// spareCap is the poisoned spare capacity behind every buffer ReadFile hands out.
+const spareCap = 48
 
 // FindWithPrefixAndSuffix implements par2's fileIO: literal prefix and
 // suffix match within one directory (the '*' of filepath.Glob does not
